@@ -308,7 +308,7 @@ func releaseOpener(fifo string, w *os.File) {
 		w.Close()
 		return
 	}
-	fd, err := syscall.Open(fifo, syscall.O_WRONLY|syscall.O_NONBLOCK, 0)
+	fd, err := syscall.Open(fifo, syscall.O_WRONLY|syscall.O_NONBLOCK|syscall.O_CLOEXEC, 0)
 	if err == nil {
 		syscall.Close(fd)
 	}
